@@ -43,7 +43,7 @@ Definition rtx_eqb (a b : rtx) : bool :=
 Definition res_eqb (a b : res) : bool :=
   match a, b with
   | RErr, RErr => true
-  | RFund s c, RFund s' c' => list_eqb N.eqb s s' && (c =? c')%Z
+  | RFund s c b, RFund s' c' b' => list_eqb N.eqb s s' && (c =? c')%Z && (b =? b')%N
   | RRedist t, RRedist t' => list_eqb rtx_eqb t t'
   | RSplit None, RSplit None => true
   | RSplit (Some (i, o)), RSplit (Some (i', o')) => (i =? i')%N && list_eqb Z.eqb o o'
@@ -104,8 +104,8 @@ Definition vals_eqb (s : state) (a b : list N) : bool :=
     implementation's choice of ids *)
 Definition check_byval (s s' : state) (o : op) (r robs : res) : bool * state :=
   match r, robs with
-  | RFund sel ch, RFund sel' ch' =>
-      (vals_eqb s sel sel' && (ch =? ch')%Z && chosen_ok s sel',
+  | RFund sel ch b, RFund sel' ch' b' =>
+      (vals_eqb s sel sel' && (ch =? ch')%Z && (b =? b')%N && chosen_ok s sel',
        match sel' with [] => s' | _ => lock_utxos s sel' end)
   | RRedist txs, RRedist txs' =>
       (list_eqb (λ a b, vals_eqb s (r_ins a) (r_ins b) && (r_nout a =? r_nout b)%Z
